@@ -98,7 +98,7 @@ def _raises_on_return_code(fn: FuncInfo) -> bool:
 @prop(
     "C27",
     technique="sibling agreement of Docker.execute / Singularity.execute (protocol-step extraction), taint rule on mount arguments (path -> join/split re-tokenisation), monotonicity rule on binding-mode assignments",
-    decides="(a) both container executes take mounts and remapped values from self.get_bindings(job=job, root=self.root), emit one mount flag per binding carrying host path, container path and mode, set the working directory to root + job.cache_dir, build argv = runtime args + image + job.task._command_args(values=<remapped values>), and raise on a non-zero return code; (b) mount arguments are not re-tokenised (no ' '.join(...).split() over paths); (c) an assignment to bindings[host_path] cannot replace 'rw' by 'ro'; (d) the cache root is bound 'rw' and every container path is f'{root}{host parent}'.",
+    decides="(a) both container executes take mounts and remapped values from self.get_bindings(job=job, root=self.root), emit one mount flag per binding carrying host path, container path and mode, set the working directory to root + job.cache_dir, build argv = runtime args + image + job.task._command_args(values=<remapped values>), and raise on a non-zero return code; (b) mount arguments are not re-tokenised (no ' '.join(...).split() over paths); (c) an assignment to bindings[host_path] cannot replace 'rw' by 'ro'; (d) the cache root is bound 'rw' and every container path is f'{root}{host parent}'. Additionally: the look-ups protecting an existing 'rw' binding use the key the store uses; the field loop of get_bindings skips a file-typed field only when its value is unset; the return-code guard is exact (no narrowing conjunct, every path raises).",
     not_decided="path arithmetic on unusual paths, behaviour of the container runtimes.",
     level_note="Trusted: Docker -v / Singularity -B flag syntax host:container:mode.",
 )
@@ -332,7 +332,7 @@ def check_c38(A: Analysis, col: Collector):
 @prop(
     "C39",
     technique="def-use rule: the mapping passed as env= to the subprocess call must have os.environ among its reaching definitions, with the module variables applied on top; sibling agreement of the argv with Native.execute",
-    decides="(a) in Lmod.execute the dict passed as env= to base.execute derives from os.environ (dict(os.environ) / os.environ.copy() / {**os.environ}) and the variables parsed from the lmod output are assigned into it afterwards; env= reaches subprocess.run through base.execute -> read_and_display (**kwargs forwarding); (b) the argv is job.task._command_args(values=job.inputs) exactly as in Native.execute, and a non-zero return code raises.",
+    decides="(a) in Lmod.execute the dict passed as env= to base.execute derives from os.environ (dict(os.environ) / os.environ.copy() / {**os.environ}) and the variables parsed from the lmod output are assigned into it afterwards; env= reaches subprocess.run through base.execute -> read_and_display (**kwargs forwarding); (b) the argv is job.task._command_args(values=job.inputs) exactly as in Native.execute, and a non-zero return code raises. Additionally: the subprocess wrappers (execute, read_and_display) hand env= on untouched; the return-code guard is exact.",
     not_decided="the regular expression that parses lmod's python output; behaviour of lmod itself.",
     level_note="Trusted: subprocess.run(env=...) replaces the child's environment with exactly the given mapping.",
 )
